@@ -2,6 +2,7 @@
 package iohelp
 
 import (
+	"bytes"
 	"errors"
 	"io"
 	"math"
@@ -92,9 +93,52 @@ func (ew *ErrorWriter) SafeWrite(b []byte) int {
 }
 
 func ReadString(r *ErrorReader) string {
-	data := make([]byte, ReadUint32(r))
-	_, _ = r.Read(data)
-	return string(data)
+	return string(ReadBytes(r, ReadUint32(r)))
+}
+
+// maxPrealloc bounds what a stream decoder allocates on the word of a length
+// prefix alone; beyond it, memory grows only as fast as data actually arrives.
+const maxPrealloc = 4096
+
+// PreallocLen is the number of elements to allocate up front for n announced elements.
+func PreallocLen(n uint32) int {
+	if n > maxPrealloc {
+		return maxPrealloc
+	}
+	return int(n)
+}
+
+// EnsureLen extends s with zero values, to at most n elements, so that s[i] exists.
+func EnsureLen[T any](s []T, i int, n uint32) []T {
+	if i < len(s) {
+		return s
+	}
+	grow := len(s)
+	if grow < maxPrealloc {
+		grow = maxPrealloc
+	}
+	if rest := int(n) - len(s); grow > rest {
+		grow = rest
+	}
+	return append(s, make([]T, grow)...)
+}
+
+// ReadBytes reads n bytes from r. A failure is latched in r.Err; the bytes
+// returned in that case are not meaningful.
+func ReadBytes(r *ErrorReader, n uint32) []byte {
+	if n <= maxPrealloc {
+		data := make([]byte, n)
+		_, _ = r.Read(data)
+		return data
+	}
+	var buf bytes.Buffer
+	if _, err := io.CopyN(&buf, r.Reader, int64(n)); err != nil {
+		if err == io.EOF {
+			err = io.ErrUnexpectedEOF
+		}
+		r.Err = err
+	}
+	return buf.Bytes()
 }
 
 func MustReadStringBytes(buf []byte) string {
